@@ -288,6 +288,40 @@ ENSURES(S_SWAPPED(s1, s2) && S_SWAPPED(s2, s1))
 #undef S_SWAPPED
 #endif
 
+#ifdef VF_G_reserve
+/* reserve: never shrinks, quietly does nothing when the growth cannot be had (allocation failure, or
+ * sz + 1 not representable); size, characters and terminator are untouched; on success the string
+ * can hold sz characters (storage for sz + 2 elements).  vector.c inlined down to realloc. */
+static inline void SN(reserve)(struct ST * const s, const size_t sz)
+REQUIRES(S_PRE(s))
+#ifndef VF_S_EMPTY
+/* the second ghost window of the realloc model follows the terminator */
+REQUIRES(S_GHOST(vf_w_g) && vf_w_h == vf_w_size)
+#endif
+ASSIGNS(s->v.elem.base, s->v.cap)
+FREES(s->v.elem.base)
+#ifdef VF_S_EMPTY
+ENSURES(s->v.count == 0 && S_NUM(s) && ((s->v.elem.base == NULL && s->v.cap == 0) ||
+        (s->v.cap == sz + 1 && sz + 1 > 0 && (vf_u128)__CPROVER_OBJECT_SIZE(s->v.elem.base) >= ((vf_u128)s->v.cap + 1) * CHSZ)))
+#else
+ENSURES(S_WF(s) && S_SIZE(s) == vf_w_size && s->v.count == vf_w_size + 1)
+ENSURES(s->v.cap == vf_w_cap || (s->v.cap == sz + 1 && sz + 1 > vf_w_cap))
+ENSURES(sz + 1 <= vf_w_cap ==> s->v.elem.base == OLD(s->v.elem.base))
+ENSURES(vf_w_g < vf_w_size ==> S_DATA(s)[vf_w_g] == OLD(S_DATA(s)[vf_w_g]))
+#endif
+;
+/* clear: storage released, the string equals a freshly initialised one */
+static inline void SN(clear)(struct ST * const s)
+REQUIRES(S_PRE(s))
+ASSIGNS(s->v.elem.base, s->v.cap, s->v.count, vf_aborted, vf_cons_calls, vf_dest_calls, vf_xtor_next, vf_xtor_bad)
+FREES(s->v.elem.base)
+ENSURES(s->v.elem.base == NULL && s->v.cap == 0 && s->v.count == 0 && S_NUM(s))
+#ifndef VF_S_EMPTY
+ENSURES(__CPROVER_was_freed(OLD(s->v.elem.base)))
+#endif
+;
+#endif
+
 CH * SN(at)(struct ST * const s, const size_t i)
 REQUIRES(S_PRE(s))
 ASSIGNS(vf_aborted)
